@@ -76,3 +76,71 @@ def _(c):
     c.hook("before", "self.handle_response", [("assert", "the-answer-received-is-the-answer-handled", "$answered and a0 == resp")])
     c.ensures_internal("done-only-when-an-answer-was-handled-and-asked-for-no-retry", "implies(result, $answered and $handled and $verdict is None)")
     c.ensures_internal("a-round-that-is-not-done-backed-off-first", "implies(not result, $slept)")
+
+
+# ------------------------------------------------------------------ Sender._fail_all (done-callback of the sender task)
+# C16 "after a fatal error ... every later transactional call and every pending send fails": a fatal error ends the sender task;
+# this callback is what turns that into failed sends (accumulator) and a fatal transaction manager - in whatever state the
+# manager is at that moment (the EndTxn reply of a commit arrives in COMMITTING_TRANSACTION, not IN_TRANSACTION)
+@contract(MOD + ":Sender._fail_all", ["C16", "C02", "C19"])
+def _(c):
+    c.self_("Sender")
+    c.param("task", Fut(NONE))
+    c.no_class_inv = True
+    c.requires("task.done()", "a-done-callback")
+    c.ghost("$sends_failed", BOOL, "False")
+    c.ghost("$manager_fatal", BOOL, "False")
+    c.call("self._message_accumulator.fail_all", ghost={"$sends_failed": "True"},
+           modifies=["MessageAccumulator.*", "MessageBatch.*", "Future.state", "Future.nres", "Future.exc"],
+           note="MessageAccumulator.fail_all (under contract, accumulator_flush.py): every queued and in-flight batch fails with the error")
+    c.call("self._txn_manager.fatal_error", ghost={"$manager_fatal": "True"}, raises=["AttributeError"],
+           modifies=["TransactionManager.*", "Future.state", "Future.nres", "Future.exc"],
+           note="TransactionManager.fatal_error (under contract, C16; abstracted because its precondition - a transaction waiter "
+                "exists - is a fact about the caller's history: before the first begin_transaction() it ends in AttributeError "
+                "after the state has become FATAL_ERROR)")
+    c.modifies("MessageAccumulator.*", "MessageBatch.*", "TransactionManager.*", "Future.state", "Future.nres", "Future.exc")
+    c.raises("the-manager-has-no-transaction-waiter-yet", "AttributeError")
+    c.hook("before", "self._message_accumulator.fail_all", [("assert", "with-the-error-the-sender-died-of", "a0 == task.exception()")])
+    c.hook("before", "self._txn_manager.fatal_error", [("assert", "with-the-error-the-sender-died-of", "a0 == task.exception()")])
+    DIED = "not task.cancelled() and task.exception() is not None"
+    c.ensures_internal("a-sender-that-died-of-an-error-fails-every-pending-send", "implies(%s, $sends_failed)" % DIED)
+    c.ensures_internal("and-makes-the-transaction-manager-fatal-whatever-state-it-is-in",
+                       "implies(%s and self._txn_manager is not None, $manager_fatal)" % DIED)
+    c.replay_fn = lambda model, ob=None: {"script": _FAIL_ALL_SCRIPT}
+
+
+_FAIL_ALL_SCRIPT = '''
+import asyncio, logging
+logging.disable(logging.CRITICAL)
+from unittest import mock
+from aiokafka.errors import ProducerFenced
+from aiokafka.producer.sender import Sender
+from aiokafka.producer.transaction_manager import TransactionManager, TransactionState
+async def main():
+    bad = []
+    for state in ("IN_TRANSACTION", "COMMITTING_TRANSACTION", "ABORTING_TRANSACTION", "ABORTABLE_ERROR"):
+        tm = TransactionManager("tid", 1000)
+        tm.set_pid_and_epoch(1, 0)
+        tm.begin_transaction()
+        if state == "COMMITTING_TRANSACTION": tm.committing_transaction()
+        elif state == "ABORTING_TRANSACTION": tm.aborting_transaction()
+        elif state == "ABORTABLE_ERROR": tm.error_transaction(RuntimeError("abortable"))
+        snd = Sender.__new__(Sender)
+        snd._txn_manager = tm
+        snd._message_accumulator = mock.MagicMock()
+        task = asyncio.get_running_loop().create_future()
+        task.set_exception(ProducerFenced())
+        snd._fail_all(task)
+        waiter = tm._transaction_waiter
+        if tm.state != TransactionState.FATAL_ERROR or not waiter.done():
+            bad.append("sender died with ProducerFenced while the manager was %s: state afterwards %s, transaction waiter %s"
+                       % (state, tm.state.name, "resolved" if waiter.done() else "pending for ever"))
+        if not snd._message_accumulator.fail_all.called:
+            bad.append("%s: pending sends were not failed" % state)
+        if waiter.done(): waiter.exception()
+        task.exception()
+    return bad
+bad = asyncio.run(main())
+VIOLATED = bool(bad)
+DETAIL = "%r" % (bad[:3],) if bad else "ok"
+'''
